@@ -25,7 +25,9 @@ HERE = os.path.dirname(os.path.dirname(os.path.abspath(__file__)))
 # ------------------------------------------------------------------------------------------------ (G) plans
 def hist_key(p):
     return json.dumps([p["enc"], p["chain"], p["check"], p["bsize"],
-                       [(o["k"], o.get("a"), o.get("n"), o.get("target")) for o in p["ops"]]], sort_keys=True)
+                       [(o["k"], o.get("a"), o.get("n"), o.get("target"), o.get("fail"),
+                         (o.get("ntok"), o.get("where"), o.get("during")) if o.get("mid") else None)
+                        for o in p["ops"]]], sort_keys=True)
 
 def prediction(p):
     """What the replay compares: one tuple per step."""
@@ -74,6 +76,8 @@ def features(p):
             prev_open = o["open"]; given = o["given"]
         else:
             t = o["target"]
+            if o.get("fail", "none") != "none":
+                f.add("update:%s:alloc-%s:%s" % (o["ret"], o["fail"], "open" if prev_open else "closed"))
             f.add("update:%s:%s:%s%s" % (o["ret"], "open" if prev_open else "closed",
                                           "initfail" if t["pre"] == "armbad" else
                                           "samepre" if t["pre"] == p["chain"]["pre"] else "otherpre", ":" + t["props"]))
@@ -102,8 +106,24 @@ def make_history(p, rng, grant=None, long=False):
         # streaming profile: many small writes (a write after a completed flush is much shorter than the encoder's
         # look-ahead), data whose matches reach back across the flush points
         u = rng.choice([1, 2, 5, 13, 20])
-    ops = [dict(k="op", a=o["a"], n=o["n"]) if o["k"] == "op" else dict(k="update", target=o["target"])
-           for o in p["ops"]]
+    # lzma_filters_update() calls made while an operation is unfinished are attached to that operation: the driver
+    # makes them when the output ends at the same place (elements completed, element being written)
+    ops = []
+    pending = []
+    for o in p["ops"]:
+        if o["k"] == "update" and o.get("mid"):
+            pending.append(dict(target=o["target"], fail=o["fail"], ntok=o["ntok"], where=o["where"], during=o["during"]))
+        elif o["k"] == "update":
+            ops.append(dict(k="update", target=o["target"], fail=o.get("fail", "none")))
+        else:
+            ops.append(dict(k="op", a=o["a"], n=o["n"], inject=pending))
+            pending = []
+    if pending:
+        d = pending[0]["during"]
+        ops.append(dict(k="op", a=d["a"], n=d["n"], inject=pending, nopred=True))
+    if any(o.get("inject") for o in ops):
+        grant = "one"
+        u = max(rng.choice([1, 5, 17]), 16 if p["chain"]["pre"] == "x86" else 1)
     # the application always finishes the stream with some more input: "the whole stream still decodes to the whole
     # input".  Its outcome is decided by the contract (4): STREAM_END unless an earlier call was refused fatally.
     ops.append(dict(k="op", a="FINISH", n=1, extra=True))
@@ -154,9 +174,19 @@ def compare(ctx, p, preds, h, res):
     obs, closed = observed(h, res)
     probs = []
     best = None
+    nopred = any(o.get("nopred") for o in h["ops"])
+    if nopred:
+        obs = obs[:len(p["ops"])]
+    # After an update whose allocator fails in the initialisation phase ("init") the outcome is not a function of
+    # the history (whether the re-initialisation allocates depends on what liblzma can reuse): the comparison stops
+    # there, such runs are judged by the trace validation (both outcomes are behaviours of the model).
+    stop = min([i for i, o in enumerate(p["ops"]) if o["k"] == "update" and o.get("fail") == "init"] + [len(p["ops"])])
+    barrier = stop < len(p["ops"])
     for pr in preds:
         errs = []
         for i, (a, b) in enumerate(zip(pr, obs)):
+            if i >= stop:
+                break
             step = p["ops"][i]
             what = step.get("a") or "update"
             if a[0] == "update":
@@ -180,7 +210,7 @@ def compare(ctx, p, preds, h, res):
                                      "step %d %s completed: model says %d bytes decodable, %s decoded %d (%s)"
                                      % (i, what, a[2] * u, j, o["check"][j], o["check"])))
         # the closing FINISH
-        if len(obs) == len(pr) + 1:
+        if len(obs) == len(pr) + 1 and not nopred and not barrier:
             fatal = any(x[0] == "op" and x[1] == "OPTIONS_ERROR" for x in pr)
             ended = any(x[0] == "op" and x[1] == "STREAM_END" and p["ops"][i]["a"] == "FINISH" for i, x in enumerate(pr))
             want = "PROG_ERROR" if fatal and not ended else "STREAM_END"
@@ -196,7 +226,7 @@ def compare(ctx, p, preds, h, res):
                                      "finished stream: %d bytes accepted, %s decoded %s" % (o["given"], j, o.get("check"))))
         # Blocks of the output against the model's index at the last modelled step (before the closing FINISH)
         last = pr[-1] if pr else None
-        if last and last[0] == "op" and last[3] != "null" and h["enc"] in ("stream", "mt"):
+        if last and last[0] == "op" and last[3] != "null" and h["enc"] in ("stream", "mt") and not nopred and not barrier:
             want = [(n * u, pre) for n, pre in json.loads(last[3])]
             got = [(n, pre) for n, pre in closed]
             head = got[:len(want)]
@@ -274,6 +304,7 @@ def run_replays(ctx, so, plans, label, want_traces, ev_budget, nworkers=3, long=
     traces = []
     seen = set()
     used = [0]
+    stats = collections.Counter()
     t0 = time.time()
     jobs = []
     for n, (p, preds) in enumerate(plans):
@@ -295,14 +326,21 @@ def run_replays(ctx, so, plans, label, want_traces, ev_budget, nworkers=3, long=
                 if not res.get("ok"):
                     raise MachineryError("driver: %s on %s" % (res.get("error"), json.dumps(h)[:600]))
                 h = res["hist"]
-                probs = [tuple(x) for x in res["problems"]] + compare(ctx, p, preds, h, res)
+                if res.get("unrealised"):
+                    # the planned position inside the output did not occur with this data (e.g. no Block Padding)
+                    stats["unrealised"] += 1
+                    probs = [tuple(x) for x in res["problems"]]
+                else:
+                    probs = [tuple(x) for x in res["problems"]] + compare(ctx, p, preds, h, res)
                 for key, detail in probs:
                     if key in seen:
                         continue
                     seen.add(key)
                     ctx.violation(key, detail, dict(kind="history", history=h, seed=seed, observed=res["ops"], toks=res["toks"]))
                 nev = len(res["events"])
-                if len(traces) < want_traces and used[0] + nev <= ev_budget and nev <= 6000:
+                special = any(o["k"] == "update" and o.get("fail", "none") != "none" for o in p["ops"])
+                if (len(traces) < want_traces or (special and len(traces) < want_traces + 40)) \
+                   and used[0] + nev <= ev_budget + (3000 if special else 0) and nev <= 6000:
                     traces.append(("%s:%s:%s:%s:%d" % (h["enc"], h["chain"]["pre"], h["chain"]["lz"], h["grant"], n), res["events"]))
                     used[0] += nev
                 if n == 3:
@@ -320,8 +358,9 @@ def run_replays(ctx, so, plans, label, want_traces, ev_budget, nworkers=3, long=
     if errs:
         raise errs[0]
     traces.sort(key=lambda t: int(t[0].rsplit(":", 1)[1]))
-    ctx.log("replayed %d histories (%s) in %.1fs; %d kept for trace validation (%d events)"
-            % (len(plans), label, time.time() - t0, len(traces), used[0]))
+    ctx.log("replayed %d histories (%s) in %.1fs; %d kept for trace validation (%d events)%s"
+            % (len(plans), label, time.time() - t0, len(traces), used[0],
+               "; %d with a planned position that did not occur" % stats["unrealised"] if stats["unrealised"] else ""))
     return traces
 
 # ------------------------------------------------------------------------------------------------ CLI plans
@@ -462,7 +501,7 @@ def cli_block_list(ctx, cli, c12drv, lz):
             if li + 1 < len(sizes):
                 li += 1
                 if chains[li] != chains[li - 1]:
-                    events.append(dict(e="Update", target=cdef[chains[li]], ret="OK"))
+                    events.append(dict(e="Update", target=cdef[chains[li]], ret="OK", fail="none", ntok=-1))
             rem = sizes[li]
     hist = dict(enc="stream", chain=chain, check="crc")
     judge = c12drv.Judge(hist, c12drv.chain_filters(chain, dict(dict_size=1 << 16)), dict(dict_size=1 << 16))
@@ -532,13 +571,15 @@ def run(ctx):
     bug_names = ["bcj_accepts_sync", "update_keeps_block_initialized"] if quick else \
         ["bcj_accepts_sync", "no_state_reset_after_uncompressed", "empty_block_on_full_flush", "update_mid_chunk",
          "stream_update_mid_block", "lzma2_init_ignores_unencoded", "block_sync_is_finish", "mt_update_mid_block",
-         "lzma1_accepts_sync", "update_keeps_block_initialized"]
+         "lzma1_accepts_sync", "update_keeps_block_initialized", "stream_update_in_block_header", "mt_update_frees_first"]
     bug_jobs = [(b, pool.submit(tlc.run, "MCXzStreamEnc", cfg="MCXzStreamEncBug_%s.cfg" % b, workers=1, timeout=600))
                 for b in bug_names]
     # (G)
     gen_bfs = pool.submit(tlc.run, "GenXzStreamEnc", cfg="GenXzStreamEncQ.cfg" if quick else "GenXzStreamEnc.cfg", workers=3, timeout=900)
     gen_long = pool.submit(tlc.run, "GenXzStreamEnc", cfg="GenXzStreamEncLong.cfg", workers=1, timeout=300,
                            simulate=40 if quick else 400, depth=2000, seed=ctx.seed + 7)
+    gen_mid = pool.submit(tlc.run, "GenXzStreamEnc", cfg="GenXzStreamEncMid.cfg" if quick else "GenXzStreamEncMidT.cfg",
+                          workers=3, timeout=900)
     gen_sim = pool.submit(tlc.run, "GenXzStreamEnc", cfg="GenXzStreamEncSim.cfg", workers=1, timeout=300,
                           simulate=150 if quick else 1500, depth=260, seed=ctx.seed)
     # CLI plans meanwhile
@@ -605,6 +646,28 @@ def run(ctx):
     traces += run_replays(ctx, L["so"], [lng[k] for k in lk[:(100 if quick else 1000)]],
                           "streaming histories of 60 operations", 5 if quick else 40, 3000 if quick else 24000,
                           nworkers=3 if quick else 4, long=True)
+    gm = gen_mid.result()
+    ctx.add_tlc("GenXzStreamEnc(bfs, updates between the calls of an operation)", gm, exhaustive=True)
+    mid = collect_plans([gm.out])
+    # every (encoder, position inside the output, outcome) of such an update several times
+    mgroups = collections.defaultdict(list)
+    for k in sorted(mid):
+        pl = mid[k][0]
+        for o in pl["ops"]:
+            if o["k"] == "update" and o.get("mid"):
+                mgroups[(pl["enc"], pl["chain"]["pre"], o["where"], o["ret"], o["target"]["pre"] == pl["chain"]["pre"])].append(k)
+    if len(mgroups) < 30:
+        raise MachineryError("only %d kinds of mid-operation updates generated" % len(mgroups))
+    mk = []
+    for g2 in sorted(mgroups):
+        ks = mgroups[g2]
+        ctx.rng.shuffle(ks)
+        mk += ks[:(2 if quick else 25)]
+    mk = sorted(set(mk))
+    ctx.rng.shuffle(mk)
+    ctx.extra["mid_update_kinds"] = len(mgroups)
+    traces += run_replays(ctx, L["so"], [mid[k] for k in mk], "histories with lzma_filters_update between two lzma_code calls (%d kinds)" % len(mgroups),
+                          40 if quick else 300, 7000 if quick else 60000, nworkers=3 if quick else 4)
     traces += cli_traces
     # (V)
     rej = tracev.validate(ctx, "TraceXzStreamEnc", traces, trace_key, maxl=True, timeout=600 if quick else 1500)
